@@ -379,3 +379,33 @@ def body_await(run, model, rule="C13.body-await"):
         if not direct and not through:
             bad = (fi.node, "no call of the decorated function was found in the async wrapper")
         run.check(bad is None, rule, fi.qual, "every call of the decorated function is awaited where it is made", bad[1] if bad else "", fi.loc(bad[0]) if bad else fi.loc(), None, first_line(bad[0]) if bad and not isinstance(bad[0], (ast.FunctionDef, ast.AsyncFunctionDef)) else None)
+
+
+def coroutine_results_tested(run, model, rule="C13.coroutine-result-tested"):
+    """Wherever the library calls a user's condition or capture, the result is either awaited at once (a coroutine
+    function) or tested with ``inspect.iscoroutine`` before it is judged or stored -- in every function of the checker
+    module, including helpers added later.  A coroutine object is truthy: judged as it is, the contract always holds."""
+    count = 0
+    for fi in sorted(model.modules["_checkers"].funcs, key=lambda f: f.qual):
+        if not fi.live:
+            continue
+        flow = get_flow(model, fi)
+        for n in flow.cfg.nodes:
+            for call, cond, awaited in calls_in(n):
+                f = call.func
+                if not (isinstance(f, ast.Attribute) and f.attr in ("condition", "capture")):
+                    continue
+                count += 1
+                construct = "%s:%s@%d" % (fi.qual, f.attr, count)
+                if awaited:
+                    run.ok(rule, construct, "awaited where it is called", fi.loc(n))
+                    continue
+                R = strip_sites(flow.term(call, n))
+                tested = False
+                for t in flow.cfg.nodes:
+                    if t.kind == "test" and t.ast is not None:
+                        for s_ in subterms(strip_sites(flow.term(t.ast, t))):
+                            if s_[0] == "call" and s_[1] in (("attr", ("module", "inspect"), "iscoroutine"), ("attr", ("module", "inspect"), "isawaitable"), ("attr", ("module", "asyncio"), "iscoroutine")) and any(a_ == R or (a_[0] == "phi" and R in a_[1]) for a_ in s_[2]):
+                                tested = True
+                run.check(tested, rule, construct, "the result is tested with inspect.iscoroutine before it is judged", "the result of the user's %s is judged (or stored) without testing whether it is a coroutine: a condition that yields a coroutine -- e.g. a lambda calling an async function -- is taken as truthy and the contract always holds" % f.attr, fi.loc(n), None, first_line(n.stmt))
+    return count
